@@ -33,6 +33,7 @@ pub fn create_dir_for_path(path: &PathBuf) -> io::Result<()> {
 
 fn main() {
     println!("cargo:rerun-if-changed=includes"); // <- uncomment if ready to use
+    println!("cargo:rustc-check-cfg=cfg(avra_rs_verif)");
     let our = get_files(&PathBuf::from("includes"));
 
     let mut path = config_dir().unwrap();
